@@ -269,12 +269,25 @@ fn run_child_inner(ctx: &mut Ctx, child: &Child, subdir: bool) -> ChildResult {
     let out_path = dir.join(".stdout");
     let err_path = dir.join(".stderr");
     let log_path = dir.join(".events");
-    let mut cmd = Command::new(&ctx.sfs_bin);
+    // the pseudo-variable SIMIO_ARGV0 asks for the binary to be started through a symlink of
+    // that name (argv[0] differs); it is not exported to the child
+    let argv0 = child.env.iter().find(|(k, _)| k == "SIMIO_ARGV0").map(|(_, v)| v.clone());
+    let program = match &argv0 {
+        Some(name) => {
+            let link = dir.join(name);
+            let _ = std::os::unix::fs::symlink(&ctx.sfs_bin, &link);
+            link
+        }
+        None => ctx.sfs_bin.clone(),
+    };
+    let mut cmd = Command::new(&program);
     cmd.args(&args);
     cmd.env_clear();
     cmd.env("SFS_ALLOW_STDIN", "1");
     for (k, v) in &child.env {
-        cmd.env(k, v.replace("@DIR@", &dir_s));
+        if k != "SIMIO_ARGV0" {
+            cmd.env(k, v.replace("@DIR@", &dir_s));
+        }
     }
     if let Some(plan) = &child.plan {
         let plan_path = dir.join(".plan");
